@@ -9,7 +9,8 @@ QUICK = ["MC_exec_basic.cfg", "MC_exec_abstract.cfg", "MC_exec_lists.cfg", "MC_e
          "MC_exec_frag.cfg", "MC_exec_fragq.cfg", "MC_exec_merge.cfg", "MC_exec_merge2.cfg", "MC_exec_mutargs.cfg", "MC_exec_fragvar.cfg", "MC_exec_dirs.cfg", "MC_exec_dirs2.cfg", "MC_exec_s2.cfg", "MC_exec_s2g.cfg", "MC_exec_s2m.cfg", "MC_exec_ops.cfg", "MC_exec_mut.cfg"]
 THOROUGH = QUICK + ["MC_exec_basic5.cfg", "MC_exec_abstract5.cfg", "MC_exec_frag5.cfg", "MC_exec_dirs5.cfg", "MC_exec_lists5.cfg"]
 
-ENGINE_CFGS = [{}, {"list_conc": False, "parent_conc": False, "field_parent_conc": False, "args": "sync"}, {"cdr": True, "list_conc": False}]
+ENGINE_CFGS = [{}, {"list_conc": False, "parent_conc": False, "field_parent_conc": False, "args": "sync"}, {"cdr": True, "list_conc": False},
+               {"seq_fields": ("i", "lo", "lp", "o", "p", "s")}]      # some fields awaited inline, their siblings gathered
 
 
 def job(j):
